@@ -542,13 +542,16 @@ static void run_matrix_sequences(void) {
     static const int KINDS[3] = {K_BIT, K_U1, K_DOUBLE};
     for (int a = 0; a < NS; a++) {
         for (int b = 0; b < NS; b++) {
-            for (int ki = 0; ki < 3; ki++) {
+            for (int kii = 0; kii < 6; kii++) {
                 if (!vh_case()) {
                     continue;
                 }
                 if (a == b) {
                     continue;
                 }
+                /* how the second matrix gets into the buffer: 0 = header encoded in place, 1 = a stored matrix's
+                 * header copied in from elsewhere (loading a saved matrix into a reused buffer) */
+                int ki = kii % 3, install = kii / 3;
                 int kind = KINDS[ki], ew = kind_width(kind);
                 uint8_t *m = vh_gb_get_lo(0, 2048, 0x00); /* the same address for both matrices */
                 uint8_t ref[2048];
@@ -556,10 +559,19 @@ static void run_matrix_sequences(void) {
                     int R = which ? SH[b][0] : SH[a][0], C = which ? SH[b][1] : SH[a][1];
                     size_t hl = 2, cells = (size_t)R * (size_t)C;
                     size_t total = hl + (kind == K_BIT ? (cells + 7) / 8 : cells * (size_t)ew);
-                    memset(m, 0, 2048);
-                    int dim = (int)varintDimensionPairEncode(m, (size_t)R, (size_t)C);
+                    int dim;
+                    if (which && install) {
+                        uint8_t stored[32];
+                        memset(stored, 0, sizeof stored);
+                        dim = (int)varintDimensionPairEncode(stored, (size_t)R, (size_t)C);
+                        memset(m + hl, 0, 2048 - hl);
+                        memcpy(m, stored, hl);
+                    } else {
+                        memset(m, 0, 2048);
+                        dim = (int)varintDimensionPairEncode(m, (size_t)R, (size_t)C);
+                    }
                     memcpy(ref, m, 2048);
-                    snprintf(desc, sizeof desc, "%dx%d %s matrix written at the address that held a %dx%d matrix", R, C, KN[kind], SH[a][0], SH[a][1]);
+                    snprintf(desc, sizeof desc, "%dx%d %s matrix %s at the address that held a %dx%d matrix", R, C, KN[kind], which && install ? "loaded (header copied)" : "written", SH[a][0], SH[a][1]);
                     for (int r = 0; r < R; r++) {
                         for (int c = 0; c < C; c++) {
                             size_t idx = (size_t)r * (size_t)C + (size_t)c;
@@ -607,7 +619,7 @@ static void run_matrix_sequences(void) {
             }
         }
     }
-    vh_class("sequences/two-matrices-one-buffer", "%d shapes x %d shapes x {bit, u8, double}", NS, NS);
+    vh_class("sequences/two-matrices-one-buffer", "%d shapes x %d shapes x {bit, u8, double} x {encoded in place, header copied in}", NS, NS);
 }
 
 int main(int argc, char **argv) {
